@@ -1198,7 +1198,15 @@ fn write_attribute_value<W: Write>(
                             p.value_expr(w)?;
                             write!(w, ")")?;
                             Ok(())
-                        })
+                        })?;
+                        if method_name == "R.y" {
+                            // `style` may be a property of a component: its change has to be applied
+                            w.expr_stmt(|w| {
+                                write!(w, "E(N)")?;
+                                Ok(())
+                            })?;
+                        }
+                        Ok(())
                     })?;
                 }
             }
